@@ -227,6 +227,10 @@ def gen(rs, tier):
     rq = sub(rs, "c12env")
     # a Current object that already IS a constraint is entered again, as it is or as a scalar multiple, without a name (a second
     # limit on the same aggregate): what the new row is called must not depend on the history of the object handed over
+    rz = sub(rs, "zero_limit")
+    for o_ in ops:
+        if o_["op"] in ("add", "update") and rz.random() < 0.05:
+            o_["limit"] = rz.choice([0, 0.0])       # a branch that is closed: a limit of exactly 0 A is a limit like any other
     rq = sub(rs, "readd")
     lim = next((i_ for i_, o_ in enumerate(ops) if o_["op"] in ("remove", "update")), len(ops))
     cand = [o_ for o_ in ops[:lim] if o_["op"] == "add" and o_["name"] is not None and "GHOST" not in json.dumps(o_["expr"])]
